@@ -80,8 +80,11 @@ def _child(spec, props, wfd, want_sample, timeout):
         out = {"harness_error": "%s: %s" % (type(e).__name__, str(e)[:300]), "tb": traceback.format_exc()[-3000:],
                "root": spec.get("root") or spec.get("scenario", {}).get("seed")}
     try:
-        data = json.dumps(canon(out)).encode()
-        os.write(wfd, data) if len(data) < 60000 else _write_all(wfd, data)
+        try:
+            data = json.dumps(canon(out)).encode()
+        except BaseException as e:
+            data = json.dumps({"harness_error": "result not serialisable: %s" % e, "root": spec.get("root")}).encode()
+        _write_all(wfd, data)
     finally:
         os._exit(0)
 
